@@ -261,6 +261,48 @@ theorem c17_rows_in_listed_file_order (join : P → P) (mode : Mode) (fs : P →
   rw [(c17_abs_paths_in_listed_order join ((first :: rest).map (·.1))).1]
   simpa [List.map_map, Function.comp_def] using h
 
+/-! ### the file lists of a data set do not alias the caller's list -/
+
+omit [DecidableEq N] [DecidableEq D] in
+theorem C17.heapModify_other (heap : List (List P)) (src ref : Nat) (f : List P → List P) (h : ref ≠ src) :
+    (heapModify heap src f)[ref]? = heap[ref]? := by
+  unfold heapModify
+  cases hs : heap[src]? with
+  | none => rfl
+  | some l => simp [List.getElem?_set, Ne.symm h]
+
+omit [DecidableEq N] [DecidableEq D] in
+theorem C17.callerOps_other (heap : List (List P)) (src ref : Nat) (ops : List (ListOp P)) (h : ref ≠ src) :
+    (callerOps heap src ops)[ref]? = heap[ref]? := by
+  unfold callerOps
+  induction ops generalizing heap with
+  | nil => rfl
+  | cons op ops ih =>
+    simp only [List.foldl_cons]
+    rw [ih, C17.heapModify_other _ _ _ _ h]
+
+omit [DecidableEq N] [DecidableEq D] in
+/-- **A data set's file list is fixed at definition**: whatever the caller does afterwards with the
+list object it passed to the constructor / setter (append, pop, reverse, clear, any number of
+times), the data set still lists exactly the files it was defined with — in the heap model of the
+setter as coded (`list(pathfilenames)`: a new object). -/
+theorem c17_file_list_fixed_at_definition (initial : List P) (ops : List (ListOp P)) :
+    fileListAfter defineCopy initial ops = some initial := by
+  simp only [fileListAfter, defineCopy, List.getElem?_cons_zero, List.length_singleton]
+  rw [C17.callerOps_other _ 0 1 ops (by decide)]
+  rfl
+
+/-- the full statement for a setter that keeps the caller's object … -/
+def c17_file_list_alias_statement : Prop :=
+  ∀ (initial : List Nat) (ops : List (ListOp Nat)), fileListAfter defineAlias initial ops = some initial
+
+/-- … is false: the caller appends one more file to its list and the data set "has" three files -/
+theorem c17_file_list_alias_counterexample : ¬ c17_file_list_alias_statement := by
+  intro h
+  have := h [1, 2] [.append 3]
+  revert this
+  decide
+
 /-! ### kept fields, dtype conversion with exception list -/
 
 /-- **keep_fields**: the loaded fields are exactly the fields of the file whose name is kept
@@ -1669,6 +1711,14 @@ example : parquetLoad (fun _ _ v => .ok v) (fun _ : Nat => some C17.exFile) [0, 
 example : npyLoad (fun _ _ v => .ok v) (fun _ _ v => .ok v) (fun _ _ v => v) (fun a _ => a) .memory
     (fun p : Nat => if p = 0 then some C17.exFile else none) 2 [0, 1] ⟨none, [], []⟩ = .error .fileMissing := by
   decide
+
+/-- a *chained* conversion map (a target dtype that is also a source dtype, here 0 → 1, 1 → 2) is
+applied once: field 0 of dtype 0 becomes dtype 1 — in both modes — not dtype 2 -/
+example : loadFileMem (fun _ _ v => .ok v) (fun _ : Nat => some C17.exFile) 2 0 ⟨some [0], [(0, 1), (1, 2)], []⟩ =
+    .ok ⟨[⟨0, 1, [10, 11, 12]⟩], 3⟩ := by decide
+
+example : loadFileTime (fun _ _ v => .ok v) (fun _ : Nat => some C17.exFile) 0 ⟨some [0], [(0, 1), (1, 2)], []⟩ =
+    .ok ⟨[⟨0, 1, [10, 11, 12]⟩], 3⟩ := by decide
 
 /-- a renaming onto a required name with distinct new names -/
 example : ((([(5, 0)] : List (Nat × Nat))).map (·.2)).Nodup := by decide
